@@ -88,11 +88,14 @@ def Pre.apply (pre : Pre) (as : List Val) : Except Err (List Val) :=
   | .dropLast => .ok as.dropLast
   | .appendUnit => .ok (as ++ [Val.unit])
 
+/-- `in_axes` entry of one argument: `none` = not mapped, `some d` = mapped along axis `d`. -/
+abbrev Ax := Option Nat
+
 mutual
 inductive Prog where
   | dist (d : Nat)
   | static (b : Body)
-  | vmap (p : Prog) (axes : List Bool)          -- in_axes per argument: true = 0, false = None
+  | vmap (p : Prog) (axes : List Ax)            -- in_axes per argument: none = None, some 0, some 1
   | scan (p : Prog) (length : Option Nat)
   | switch (ps : List Prog)
   | mask (p : Prog)
@@ -233,25 +236,42 @@ def leaf (ds : DistSem) (m : Mode) (d : Nat) (i : In) : Except Err Res :=
       else pure ⟨.dist d i.args ov (lp ov), lp ov - olp, [], true⟩
     | _ => .error .shape
 
-/-- Slice the arguments of a vmapped call: element `k` of every mapped argument. -/
-def sliceArgs : List Bool → List Val → Nat → Except Err (List Val)
+/-- Slice `k` of one argument along the mapped axis (`jnp.take(v, k, axis)` on every leaf): axis 0
+    is element `k`; axis 1 takes element `k` of every row.  Other axes are not modelled. -/
+def sliceAx : Nat → Val → Nat → Except Err Val
+  | 0, .arr vs, k => match vs[k]? with | some v => .ok v | none => .error .shape
+  | 1, .arr rows, k => do
+    let col ← rows.mapM (fun row => match row with
+      | .arr vs => (match vs[k]? with | some v => .ok v | none => .error .shape)
+      | _ => .error .shape)
+    pure (.arr col)
+  | _, _, _ => .error .shape
+
+/-- Slice the arguments of a vmapped call: slice `k` of every mapped argument. -/
+def sliceArgs : List Ax → List Val → Nat → Except Err (List Val)
   | [], [], _ => .ok []
   | ax :: axes, a :: as, k => do
     let rest ← sliceArgs axes as k
-    if ax then
-      match a with
-      | .arr vs => match vs[k]? with | some v => pure (v :: rest) | none => .error .shape
-      | _ => .error .shape
-    else pure (a :: rest)
+    match ax with
+    | some d => do pure ((← sliceAx d a k) :: rest)
+    | none => pure (a :: rest)
   | _, _, _ => .error .shape
 
-/-- `Vmap._static_broadcast_dim_length`: the length of the first mapped argument. -/
-def dimLength : List Bool → List Val → Except Err Nat
+/-- The extent of an argument along its mapped axis (axis 1 needs at least one row: a list of rows
+    does not record the shape `(0, n)`). -/
+def axLen : Nat → Val → Except Err Nat
+  | 0, .arr vs => .ok vs.length
+  | 1, .arr (.arr r :: _) => .ok r.length
+  | _, _ => .error .shape
+
+/-- `Vmap._static_broadcast_dim_length`: the extent of the first mapped argument. -/
+def dimLength : List Ax → List Val → Except Err Nat
   | [], _ => .error .shape
   | _, [] => .error .shape
   | ax :: axes, a :: as =>
-    if ax then match a with | .arr vs => .ok vs.length | _ => .error .shape
-    else dimLength axes as
+    match ax with
+    | some d => axLen d a
+    | none => dimLength axes as
 
 /-- The generic element loop of `Vmap`: run `f k` for k = start … start+n-1. -/
 def vmapLoop (f : Nat → Except Err Res) : Nat → Nat → Except Err (List Res)
@@ -360,7 +380,7 @@ def bindOut (st : SState) (addr : List String) (r : Res) : SState :=
     bwd := st.bwd ++ CMap.pre (addr.map Comp.s) r.bwd, bwdOk := st.bwdOk && r.bwdOk }
 
 /-- Element `k` of a vmapped call. -/
-def vmapElem (axes : List Bool) (as : List Val) (i : In) (k : Nat) : Except Err In := do
+def vmapElem (axes : List Ax) (as : List Val) (i : In) (k : Nat) : Except Err In := do
   let ea ← sliceArgs axes as k
   let o ← nthOld i.old k
   pure { i with c := i.c.sub (.i k), old := o, key := i.key.child k, args := .tup ea }
@@ -368,9 +388,14 @@ def vmapElem (axes : List Bool) (as : List Val) (i : In) (k : Nat) : Except Err 
 def vecRes (args ret : Val) (rs : List Res) : Res :=
   ⟨.vec args ret (rs.map (·.tr)), sumW rs, bwdIdx rs, allBwdOk rs⟩
 
+/-- The argument tuple of a vmapped call; `Vmap.edit` accepts `Update` and `IndexRequest` only, so a
+    `Regenerate` request is rejected here (`raise NotImplementedError`). -/
+def vmapArgs (m : Mode) (v : Val) : Except Err (List Val) :=
+  if m == .regen then .error .notSupported else argList v
+
 /-- `Vmap.{simulate, assess, generate, edit_choice_map}`; `f` runs the inner function. -/
-def vmapRun (axes : List Bool) (i : In) (f : In → Except Err Res) : Except Err Res := do
-  let as ← argList i.args
+def vmapRun (m : Mode) (axes : List Ax) (i : In) (f : In → Except Err Res) : Except Err Res := do
+  let as ← vmapArgs m i.args
   let n ← dimLength axes as
   checkOldLen i.old n
   let rs ← vmapLoop (fun k => do f (← vmapElem axes as i k)) 0 n
@@ -398,13 +423,16 @@ def scanRun (m : Mode) (length : Option Nat) (i : In) (f : In → Except Err Res
   let ys ← rs.mapM secondOfRet
   pure (vecRes i.args (.tup [final, .arr ys]) rs)
 
+/-- `jnp.clip(idx, 0, n - 1)`: an out-of-range switch index is clamped to within bounds. -/
+def clampIdx (n : Nat) (idxv : Int) : Nat :=
+  if idxv < 0 then 0 else if idxv ≥ n then n - 1 else idxv.toNat
+
 def switchArgs (n : Nat) (args : Val) : Except Err (Nat × Val) :=
   match args with
   | .tup (.int idxv :: bargs) =>
     if bargs.length ≠ n then .error .shape
-    else if idxv < 0 ∨ idxv ≥ n then .error .oob
-    else match bargs[idxv.toNat]? with
-      | some a => .ok (idxv.toNat, a)
+    else match bargs[clampIdx n idxv]? with
+      | some a => .ok (clampIdx n idxv, a)
       | none => .error .shape
   | _ => .error .shape
 
@@ -432,7 +460,7 @@ def switchRun (m : Mode) (n : Nat) (i : In) (f : Mode → Nat → In → Except 
 
 def maskArgs (args : Val) : Except Err (Bool × List Val) := do
   match args with
-  | .tup (f :: rest) => pure (← f.truthy, rest)
+  | .tup (f :: rest) => pure (← f.asFlag, rest)
   | _ => .error .shape
 
 /-- `MaskCombinator.{simulate, assess, generate, edit}`. -/
@@ -477,7 +505,7 @@ mutual
 def run (ds : DistSem) (m : Mode) : Prog → In → Except Err Res
   | .dist d, i => leaf ds m d i
   | .static b, i => staticRun m i (fun olds env => runBody ds m b i olds env {})
-  | .vmap p axes, i => vmapRun axes i (fun i' => run ds m p i')
+  | .vmap p axes, i => vmapRun m axes i (fun i' => run ds m p i')
   | .scan p length, i => scanRun m length i (fun i' => run ds m p i')
   | .switch ps, i => switchRun m ps.length i (fun m' idx i' => runNth ds m' ps idx i')
   | .mask p, i => maskRun m i (fun m' i' => run ds m' p i')
